@@ -13,6 +13,9 @@ Section Core.
 Variable T : table.
 Variable C : Prop.
 Variable GP : @db Z -> list (Z * list Z) -> list (Z * list Z) -> list event -> Prop.
+(* what is known of the strategy a rule object came from (Proofs.v: handed out by the queue, a verification
+   strategy or a symmetry; carried in `prov` so that RuleDB/SearchHist.v can hand it to the C14 lookup theorems) *)
+Variable U : Z -> Prop.
 
 Notation oracle := (oracle T).
 Notation entry_of := (entry_of T).
@@ -59,7 +62,7 @@ Definition labelled0 (d : @db Z) (sym : bool) (start : Z) (ends : list Z) (r : r
      else length ends = length cs).
 (* ... and where the rule object came from: a strategy applied to a class the database knows *)
 Definition prov (d : @db Z) (r : rule) : Prop :=
-  r_kind r = REmpty \/ exists sid0 c0 l0, In r (rules_from_strategy sid0 c0) /\ lbl d c0 = Some l0.
+  r_kind r = REmpty \/ exists sid0 c0 l0, In r (rules_from_strategy sid0 c0) /\ lbl d c0 = Some l0 /\ U sid0.
 Definition labelled (d : @db Z) (sym : bool) (start : Z) (ends : list Z) (r : rule) : Prop :=
   labelled0 d sym start ends r /\ prov d r.
 
@@ -86,8 +89,8 @@ Proof.
   destruct (H (R Hr)) as ((A & cs & B & D & E) & P). split.
   - split; [apply (lbl_ext _ _ _ _ W W' X); auto|].
     exists cs; csplit; auto. apply (labels_of_ext _ _ _ _ W W' X); auto.
-  - destruct P as [P|(sid0 & c0 & l0 & P1 & P2)]; [left; auto|right].
-    exists sid0, c0, l0; split; auto. apply (lbl_ext _ _ _ _ W W' X); auto.
+  - destruct P as [P|(sid0 & c0 & l0 & P1 & P2 & P3)]; [left; auto|right].
+    exists sid0, c0, l0; split; auto. split; auto. apply (lbl_ext _ _ _ _ W W' X); auto.
 Qed.
 
 Lemma strat_of_neg : strat_of T (-1) = None.
@@ -134,7 +137,7 @@ Proof.
     destruct sym; [destruct E as (E & F & _); congruence|destruct ends; simpl in *; auto; discriminate].
   - destruct (kids_sp_rule r cs Hk B) as (K & Ap). rewrite K. split; auto. right.
     csplit; auto.
-    + destruct P as [P|(sid0 & c0 & l0 & P1 & P2)]; [contradiction|]. exists sid0, c0, l0, r; auto.
+    + destruct P as [P|(sid0 & c0 & l0 & P1 & P2 & _)]; [contradiction|]. exists sid0, c0, l0, r; auto.
     + destruct sym; auto.
 Qed.
 
@@ -151,7 +154,7 @@ Proof.
 Qed.
 
 Lemma label_rule_ok s c label r s' o :
-  Inv s -> RL s c label -> (exists sid0, In r (rules_from_strategy sid0 c)) ->
+  Inv s -> RL s c label -> (exists sid0, In r (rules_from_strategy sid0 c) /\ U sid0) ->
   label_rule T s c label r = (s', o) ->
   leq s s' /\
   match o with
@@ -161,7 +164,7 @@ Lemma label_rule_ok s c label r s' o :
       (running s' = true -> labelled (cdb s') false start ends r)
   end.
 Proof.
-  intros I Hl (sid0 & Hsid0). unfold label_rule. destruct (rule_children r) as [cs|] eqn:Ec.
+  intros I Hl (sid0 & Hsid0 & HU). unfold label_rule. destruct (rule_children r) as [cs|] eqn:Ec.
   2:{ intros [= <- <-]. split; [apply leq_refl; auto|exact Logic.I]. }
   destruct (match cs with [c0] => r_parent r =? c0 | _ => false end) eqn:Eself.
   { intros [= <- <-]. split; [apply leq_refl; auto|exact Logic.I]. }
@@ -187,7 +190,7 @@ Proof.
         assert (labels_of (cdb s2) cs ends) as H1' by (apply (RLs_leq s1 s2 cs ends I1 L2 H1 Hr)).
         pose proof (Forall2_length' _ _ _ H1') as Hlen.
         exists cs; csplit; auto. rewrite firstn_all2; [exact H1'|lia].
-      * right. exists sid0, c, label; split; auto.
+      * right. exists sid0, c, label; split; auto. split; auto.
         apply (RL_leq s1 s2 c label I1 L2 (RL_leq s s1 c label I L1 Hl) Hr).
 Qed.
 
@@ -216,14 +219,14 @@ Definition body_spec (s0 : st) (rules : list rule) (body : st -> Z -> list Z -> 
     (running s = true -> labelled (cdb s) false start ends r) -> leq s (body s start ends r).
 
 Lemma for_rules_ok s0 body sid0 c rules0 : body_spec s0 rules0 body -> incl rules0 (rules_from_strategy sid0 c) ->
-  forall rules, incl rules rules0 -> forall s label, leq s0 s -> Inv s -> RL s c label ->
+  U sid0 -> forall rules, incl rules rules0 -> forall s label, leq s0 s -> Inv s -> RL s c label ->
   leq s (for_rules T body s c label rules).
 Proof.
-  intros HB Hsub. induction rules as [|r t IH]; intros Hin s label L0 I Hl; simpl.
+  intros HB Hsub HU. induction rules as [|r t IH]; intros Hin s label L0 I Hl; simpl.
   - apply leq_refl; auto.
   - destruct (label_rule T s c label r) as [s1 o] eqn:E1.
-    assert (exists sid1, In r (rules_from_strategy sid1 c)) as Hpr
-      by (exists sid0; apply Hsub; apply Hin; left; auto).
+    assert (exists sid1, In r (rules_from_strategy sid1 c) /\ U sid1) as Hpr
+      by (exists sid0; split; [apply Hsub; apply Hin; left; auto|exact HU]).
     destruct (label_rule_ok s c label r s1 o I Hl Hpr E1) as (L1 & Ho).
     assert (Inv s1) as I1 by (apply (leq_inv _ _ L1)).
     assert (leq s0 s1) as L01 by (eapply leq_trans; eauto).
@@ -254,9 +257,9 @@ Qed.
 
 (* expanding with a strategy whose rules go to add_rule *)
 Lemma expand_with_ok ar s c sid label : ar_spec ar -> (forall r, In r (rules_from_strategy sid c) -> kids_nonempty r) ->
-  Inv s -> RL s c label -> leq s (expand_with T ar s c sid label).
+  U sid -> Inv s -> RL s c label -> leq s (expand_with T ar s c sid label).
 Proof.
-  intros HA Hne I Hl. unfold expand_with.
+  intros HA Hne HU I Hl. unfold expand_with.
   apply (for_rules_ok s ar sid c (rules_from_strategy sid c) (ar_body s sid c ar HA Hne)); auto.
   apply incl_refl. apply incl_refl. apply leq_refl; auto.
 Qed.
@@ -366,6 +369,7 @@ End Core.
 Section Base.
 Variable T : table.
 Variable C : Prop.
+Variable U : Z -> Prop.
 
 Notation oracle := (oracle T).
 Notation lbl := (label_of Z.eqb (fun c : Z => c)).
@@ -377,18 +381,18 @@ Lemma Inv0_of (GP : @db Z -> list (Z * list Z) -> list (Z * list Z) -> list even
 Proof. intros (W & E & F & _). unfold Inv. csplit; auto. intros _; exact Logic.I. Qed.
 
 Lemma base_add_ok0 s sym start ends r : Inv0 s -> rule_good T r ->
-  (running s = true -> labelled T (cdb s) sym start ends r) -> leq0 s (base_add T s start ends r).
+  (running s = true -> labelled T U (cdb s) sym start ends r) -> leq0 s (base_add T s start ends r).
 Proof.
   intros I G Hl. unfold base_add.
   destruct (clean_labels T s (r_pe T r) (combine (kids_of T r) ends)) as [s1 cl] eqn:E1.
   assert (RK s (combine (kids_of T r) ends)) as Hk.
-  { intros Hr. apply (labelled_kids T _ _ _ _ _ (Hl Hr)). }
+  { intros Hr. apply (labelled_kids T U _ _ _ _ _ (Hl Hr)). }
   destruct (clean_labels_ok T C Gtriv (Gtriv_frame T C) (Gtriv_skip C) _ _ _ _ _ I Hk E1) as (L1 & bs & Hlen & Hcl & Hpe & HC).
   assert (Inv0 s1) as I1 by (apply (leq_inv _ _ _ _ _ L1)).
   assert (forall eqv, running s1 = true ->
             ev_ok (cdb s1) (EvStore eqv start (isort cl) (r_sid r) (r_parent r))) as Hst.
   { intros eqv Hr. simpl. rewrite Hcl.
-    apply (labelled_store_ok T C _ sym); auto. apply (labelled_leq T C Gtriv s s1 sym start ends r I L1 Hl Hr). }
+    apply (labelled_store_ok T C U _ sym); auto. apply (labelled_leq T C Gtriv U s s1 sym start ends r I L1 Hl Hr). }
   assert (forall es rs es', Forall (fun e => match e with EvStore _ a b c d => a = start /\ b = isort cl /\ c = r_sid r /\ d = r_parent r
                                     | EvAdd _ _ _ _ | EvSetEmpty _ _ => False | _ => True end) es ->
             leq0 s1 (with_stores (emits es s1) rs es')) as Hfin.
@@ -412,7 +416,7 @@ Qed.
 
 (* self.ruledb.add(start, ends, rule) of RuleDB / RuleDBForgetStrategy: the call is logged, then RuleDBBase.add *)
 Lemma ruledb_base_ok0 s sym start ends r : Inv0 s -> rule_good T r ->
-  (running s = true -> labelled T (cdb s) sym start ends r) ->
+  (running s = true -> labelled T U (cdb s) sym start ends r) ->
   leq0 s (base_add T (emit (EvAdd start ends (r_sid r) (r_parent r)) s) start ends r).
 Proof.
   intros I G Hl.
